@@ -7,9 +7,9 @@ from amc.core import Failure, Report, exc_sig
 from amc.ref import bv
 
 P, Q = 0x1000, 0x2000
-LOCS = ["r1", "r2", "f", "Mp", "Mp4", "Mq", "M8p1"]
+LOCS = ["r1", "r2", "f", "Mp", "Mp4", "Mq", "M8p1", "Mq4", "Mv4"]
 VALS = ["cst", "reg", "inc", "tst", "mem", "top"]
-RED_LOCS = ["r1", "Mp", "Mq", "M8p1"]
+RED_LOCS = ["r1", "Mp", "Mq", "M8p1", "Mv4"]
 RED_VALS = ["cst", "reg", "inc"]
 CONDS = [None, "r1==0", "r2!=0"]
 CONFIGS = [(False, 0), (True, 0), (False, 4), (False, 100)]
@@ -47,7 +47,18 @@ def mkloc(R, name):
         return E.mem(R["q"], 32), 32
     if name == "M8p1":
         return E.mem(R["p"], 8, disp=1), 8
+    if name == "Mq4":
+        return E.mem(R["q"], 32, disp=4), 32
+    if name == "Mv4":
+        # a store through a pointer that is itself a merged value [p,q], with a displacement:
+        # amoco writes every possible target
+        return E.mem(E.vec([R["p"], R["q"]]), 32, disp=4), 32
     raise ValueError(name)
+
+
+def readlocs(l):
+    """the plain locations at which a write to l is observed"""
+    return ["Mp4", "Mq4"] if l == "Mv4" else [l]
 
 
 def mkval(R, name, size, k):
@@ -186,13 +197,15 @@ def check_pair(args):
             mm = merge(m1, m2, **kargs)
         except Exception as ex:
             return [(("merge-exc", "%s@%s" % exc_sig(ex), feature(s1, s2)), "merge raised %r" % (ex,))], 0
-        locs1 = set(l for l, _ in s1["w"])
-        locs2 = set(l for l, _ in s2["w"])
+        wl1 = set(l for l, _ in s1["w"])
+        wl2 = set(l for l, _ in s2["w"])
+        locs1 = set(x for l in wl1 for x in readlocs(l))
+        locs2 = set(x for l in wl2 for x in readlocs(l))
         nmem = 0
         # locations written by neither must not appear
         wl = set(written_locs(mm))
         allowed = set()
-        for l in locs1 | locs2:
+        for l in locs1 | locs2 | wl1 | wl2:
             loc, size = mkloc(R, l)
             allowed.add(str(loc.a) if loc._is_mem else str(loc))
         extra = wl - allowed
@@ -293,6 +306,8 @@ def feature(s1, s2):
         f.append("overlap-across-inputs")
     if s1.get("c") or s2.get("c"):
         f.append("cond")
+    if "Mv4" in l1 or "Mv4" in l2:
+        f.append("vecptr")
     vals = set(v for _, v in s1["w"]) | set(v for _, v in s2["w"])
     for v in ("tst", "mem", "top"):
         if v in vals:
@@ -389,7 +404,7 @@ def run(tier, seed):
     rep.coverage.update({
         "states": len(cs), "transitions": nmem, "traces_validated_against_impl": n,
         "evaluations": nmem, "distinct_nontrivial": nontriv,
-        "rule": "every pair of maps from the write menu (7 locations x 6 value kinds, <=2 writes, optional path conditions) "
+        "rule": "every pair of maps from the write menu (9 locations incl. a store through a vector-valued pointer with displacement x 6 value kinds, <=2 writes, optional path conditions) "
                 "x (widening, complexity) is merged with the real merge(); per written location the set of alternatives of "
                 "the merged value (vec = choice, top/vecw = unknown) must contain each input map's value under every valuation "
                 "satisfying that map's condition, and the same after composing with 3 concrete states; non-trivial = distinct "
